@@ -83,3 +83,67 @@ row_h!(c09_row_sub_4, 4, 1, 3, 6);
 row_h!(c09_row_up_4, 4, 2, 3, 6);
 row_h!(c09_row_avg_4, 4, 3, 3, 6);
 row_h!(c09_row_paeth_4, 4, 4, 3, 6);
+
+/// decode_frame directly (no dictionary): two rows of ROW bytes, bytes-per-pixel BPP, every filter
+/// byte and data byte symbolic; invalid filter bytes are rejected; a truncated last row is an error.
+fn frame_harness<const ROW: usize, const TOTAL: usize>(bpp: usize, cols: usize) {
+    let data: [u8; TOTAL] = kani::any();
+    let r = decode_frame(&data[..], bpp, cols);
+    let f0 = data[0];
+    let f1 = data[ROW + 1];
+    if f0 <= 4 && f1 <= 4 {
+        let zero = [0u8; ROW];
+        let mut c0 = [0u8; ROW];
+        let mut c1 = [0u8; ROW];
+        let mut i = 0;
+        while i < ROW {
+            c0[i] = data[1 + i];
+            c1[i] = data[ROW + 2 + i];
+            i += 1;
+        }
+        let r0 = ref_unfilter::<ROW>(f0, bpp, &zero, &c0, ROW);
+        let r1 = ref_unfilter::<ROW>(f1, bpp, &r0, &c1, ROW);
+        match &r {
+            Ok(v) => {
+                assert!(v.len() == 2 * ROW, "decoded frame has the wrong length");
+                let mut i = 0;
+                while i < ROW {
+                    assert!(v[i] == r0[i] && v[ROW + i] == r1[i], "decode_frame differs from PNG 9.2 reconstruction");
+                    i += 1;
+                }
+            }
+            Err(_) => panic!("well-formed predictor data rejected"),
+        }
+    } else {
+        assert!(r.is_err(), "invalid PNG filter type byte must be rejected");
+    }
+    kani::cover!(f0 == 4 && f1 == 3);
+    std::mem::forget(r);
+}
+#[kani::proof]
+#[kani::unwind(6)]
+fn c09_frame_row2_bpp1() {
+    frame_harness::<2, 6>(1, 2);
+}
+#[kani::proof]
+#[kani::unwind(6)]
+fn c09_frame_row2_bpp2() {
+    frame_harness::<2, 6>(2, 1);
+}
+#[kani::proof]
+#[kani::unwind(7)]
+fn c09_frame_row3_bpp3() {
+    frame_harness::<3, 8>(3, 1);
+}
+
+/// A truncated final row is reported as an error (not a panic, not silently dropped data).
+#[kani::proof]
+#[kani::unwind(6)]
+fn c09_frame_truncated() {
+    let data: [u8; 5] = kani::any();
+    kani::assume(data[0] <= 4 && data[3] <= 4);
+    let r = decode_frame(&data[..], 1, 2);
+    assert!(r.is_err(), "truncated last row must be an error");
+    kani::cover!(true);
+    std::mem::forget(r);
+}
